@@ -316,6 +316,40 @@ fn fam_grid(ctx: &CaseCtx, cov: &mut Cov) -> CaseOut {
     out
 }
 
+/// xz_compress on inputs whose index fields (unpadded size, uncompressed size) land on and next
+/// to the 1/2/3/4-byte boundaries of the multi-byte integer encoding - reached by sheer length
+/// with a whole-slice reader, and at a quarter of the length with one-byte reads (every read
+/// becomes an LZMA2 chunk of its own, three header bytes each)
+fn fam_xz_size_fields(ctx: &CaseCtx, cov: &mut Cov) -> CaseOut {
+    let mut out = CaseOut::default();
+    let i = ctx.index as usize;
+    let boundary = [7u32, 14, 21][i % 3];
+    let delta = (i / 3) % 5; // -2..=2
+    let field = (i / 15) % 2; // 0: uncompressed size, 1: unpadded size
+    let reader = (i / 30) % 2; // 0: whole slice, 1: BufReader cap 1
+    let target = (1usize << boundary) + delta - 2;
+    // block header 12 bytes, chunk headers 3 bytes each, end byte, CRC32 check 4 bytes
+    let len = if field == 0 {
+        target
+    } else if reader == 0 {
+        let mut l = target.saturating_sub(17);
+        while l > 0 && 12 + l + 3 * ((l + 65535) / 65536) + 1 + 4 > target {
+            l -= 1;
+        }
+        l
+    } else {
+        target.saturating_sub(17) / 4
+    };
+    // one-byte reads of two megabytes would only repeat what half a megabyte shows
+    let len = if reader == 1 && field == 0 && boundary == 21 { (target - 17) / 4 + delta } else { len };
+    let mut rng = ctx.rng();
+    let ckind = [0usize, 4, 3][i % 3];
+    let data = content(&mut rng, ckind, len);
+    cov.name(&format!("xz_size_fields.2^{}.{}", boundary, ["uncompressed", "unpadded"][field]), 1);
+    check_one(&mut out, cov, ctx, 4, reader, ckind, &data, i as u64 + 1);
+    out
+}
+
 /// hook-guided search: mutate the input to maximise pending 0xFF runs / carries
 /// in the range encoder (feedback = RcShift events), checking every candidate
 fn fam_guided(ctx: &CaseCtx, cov: &mut Cov) -> CaseOut {
@@ -637,6 +671,7 @@ pub fn monitor(tier: Tier) -> Monitor {
         ],
         families: vec![
             Family { name: "grid", count: 1440, priority: true, enumerated: false, run: fam_grid },
+            Family { name: "xz_size_fields", count: 60, priority: true, enumerated: false, run: fam_xz_size_fields },
             Family { name: "random", count: tier.pick(4_000, 200_000), priority: false, enumerated: false, run: fam_random },
             Family { name: "guided", count: tier.pick(150, 4000), priority: false, enumerated: false, run: fam_guided },
             Family { name: "adversarial_carry", count: tier.pick(120, 4000), priority: true, enumerated: false, run: fam_adversarial },
